@@ -168,7 +168,7 @@ def observe(o, plan):
     return ob
 
 
-def run_impl(cases):
+def _run_impl_raw(cases):
     import pydsdl
     import shutil
     import tempfile
@@ -284,3 +284,16 @@ def shrink(case):
             yield {"type": n, "plan": plan[idx - sub_n + 1: idx + 1], "via": "ctor"}
     if case["via"] == "text":
         yield dict(case, via="ctor")
+
+
+def run_impl(cases):
+    """every case under a wall-clock ceiling (>= 50x the slowest case on the unchanged tree): a hang becomes a reported failure"""
+    import rt
+
+    out = []
+    for case in cases:
+        try:
+            out.append(rt.with_alarm(30, lambda c=case: _run_impl_raw([c])[0]))
+        except rt.CaseTimeout:
+            out.append({"harness_fail": True, "pred_fail": "the implementation did not finish this case within 30 s (cases are generated under a cost guard of well below a second)"})
+    return out
